@@ -204,7 +204,12 @@ def run_lin(job):
                 w = linearizable(ops, init, apply)
             if w is None:
                 bad.append([{k: repr(v) for k, v in o.items()} for o in sorted(ops, key=lambda o: o['first'] or 0)])
-        ex.explore(done)
+                raise conc.Stop()
+        ex.deadline = time.time() + (90 if max_states <= 150000 else 1800)
+        try:
+            ex.explore(done)
+        except conc.Stop:
+            pass
         res.update(states=ex.states, transitions=ex.transitions, executions=ex.executions, accesses=ex.accesses, spins_cut=ex.spins_cut)
         if bad:
             res['status'] = VIOLATED
